@@ -397,7 +397,10 @@ def _choose_mie_vs_multisphere(spheres):
         centers = np.array([sphere.center for sphere in spheres.scatterers])
         dx = centers.reshape(1, -1, 3) - centers.reshape(-1, 1, 3)
         max_separation = np.linalg.norm(dx, axis=2).max()
-        close_enough = max_separation <= 30 * max_radius
+        # (with a relative tolerance, so that spheres exactly 30 radii apart
+        # get the same theory whatever the unit or orientation they are
+        # given in, rather than one that depends on how the product rounds)
+        close_enough = max_separation <= 30 * max_radius * (1 + 1e-9)
 
         theory = Multisphere() if close_enough else Mie()
     return theory
